@@ -88,6 +88,8 @@ def run(tier, seed, rng):
     cov = Coverage('data x model in {1,2,4} x {1,2}, 1-3 column/row-parallel layers, checkpoint after 1-3 steps, in-memory and directory mode, '
                    'compute_inverses on/off, 1-2 continued steps; non-trivial = D > 1 (several ranks hold a layer) and >= 2 layers; distinct by hash')
     failures: list[Failure] = []
+    from harness.props import C03
+    projq = []
     n = 40 if tier == 'quick' else 400
     for k in range(n):
         cfg, hist, base, pre, comp, dirmode = gen(rng, tier)
@@ -106,6 +108,8 @@ def run(tier, seed, rng):
             cfg_b = {a: b for a, b in cfg.items() if a != 'factor_checkpoint_dir'}
             wb = neoxrun.run(cfg_b, base, seed=seed + k, observe=observe)
             cov.add(case, D > 1 and len(cfg['layers']) >= 2, sample_cap=2)
+            if w.ok:
+                projq.append((case, C03.encode_logs(w, W)))
             cov.count('DxM', f'{D}x{M}'); cov.count('dir', dirmode); cov.count('compute_inverses', comp); cov.count('pre_steps', pre)
             probs, d7, diffs = [], [], []
             if not w.ok or not wb.ok:
@@ -197,6 +201,7 @@ def run(tier, seed, rng):
         finally:
             if tmp:
                 shutil.rmtree(tmp, ignore_errors=True)
+    failures += C03.check_proj(projq, CORRESPONDENCES[0], cov)
     return cov, failures
 
 
